@@ -615,9 +615,10 @@ def check_coverage(ctx):
     accs, loose = set(), []
     for c in walk_local(fn):
         if isinstance(c, ast.Call) and isinstance(c.func, ast.Name) and c.func.id.endswith("Requirement"):
-            pa = parent(c)
-            if isinstance(pa, ast.Call) and isinstance(pa.func, ast.Attribute) and pa.func.attr == "append" and isinstance(pa.func.value, ast.Name) and c in pa.args:
-                accs.add(pa.func.value.id)
+            # appended where it is created, or bound to a local that is appended
+            apps = [pa for pa in lib.consuming_calls(fn, c) if isinstance(pa.func, ast.Attribute) and pa.func.attr == "append" and isinstance(pa.func.value, ast.Name)]
+            if apps:
+                accs.update(pa.func.value.id for pa in apps)
             else:
                 loose.append(c)
     for c in loose:
